@@ -75,6 +75,44 @@ theorem constName_injective (hlen : ∀ b, (H b).length = 20) (reg : Registry) (
   have h' := (String.append_right_inj "c").mp h
   exact hinj _ _ (String.ofList_inj.mp h')
 
+/-- `v` and `w` can be filed in one registry: no tag is used by two different hashing branches
+(builtin type vs same-named user class, stdlib dataclass vs namedtuple of the same name, ...) -/
+def NoNameClash (v w : Value) : Prop := ∃ reg : Registry, respects reg v = true ∧ respects reg w = true
+
+/-- the flagship in the form of DESIGN.md: `NoNameClash` instead of an explicit registry -/
+theorem nhash_injective_noclash (hlen : ∀ b, (H b).length = 20) (v w : Value)
+    (hv : wf .obj v = true) (hw : wf .obj w = true) (hc : NoNameClash v w)
+    (cf : CollisionFree H (fed H v) (fed H w)) :
+    nhash H v = nhash H w → Equiv v w := by
+  obtain ⟨reg, rv, rw'⟩ := hc
+  exact nhash_injective hlen reg v w hv hw rv rw' cf
+
+/-- everything fed to `H` for a `cache.function` key without keyword-only arguments -/
+def fedKey (H : Bytes → Bytes) (funcId : Bytes) (args : List Value) : List Bytes :=
+  (H funcId ++ ((args.map (emit H)).flatten ++ (sortB []).flatten)) :: funcId :: fedL H args
+
+/-- `cache.function` (cache.py:179-197): two calls are served from the same cache file only if they are calls of
+the same `module.qualname:version` with `≈` canonical positional arguments (no separator is needed between the
+function digest and the argument digests because all have length 20).  Stated for calls without keyword-only
+arguments; with them the boundary between 20-byte argument digests and 40-byte keyword items additionally needs
+equal positional arity, which a fixed signature provides. -/
+theorem cacheKey_injective (hlen : ∀ b, (H b).length = 20) (reg : Registry) (f f' : Bytes) (args args' : List Value)
+    (hv : wfL .obj args = true) (hw : wfL .obj args' = true)
+    (rv : respectsL reg args = true) (rw' : respectsL reg args' = true)
+    (cf : CollisionFree H (fedKey H f args) (fedKey H f' args')) :
+    cacheKey H f args [] = cacheKey H f' args' [] → f = f' ∧ EquivL args args' := by
+  intro h
+  simp only [cacheKey, List.map_nil] at h
+  have h1 := cf _ (by simp [fedKey]) _ (by simp [fedKey]) h
+  have e : (sortB ([] : List Bytes)).flatten = [] := by simp [sortB]
+  rw [e, List.append_nil, List.append_nil] at h1
+  have h2 := List.append_inj h1 (by rw [hlen, hlen])
+  refine ⟨cf f (by simp [fedKey]) f' (by simp [fedKey]) h2.1, ?_⟩
+  refine seq_children hlen reg args args' (fun x _ => inj_core hlen reg x) hv hw rv rw' (cf.mono ?_ ?_) ?_
+  · intro a ha; simp [fedKey, ha]
+  · intro a ha; simp [fedKey, ha]
+  · rw [emitL_eq_map, emitL_eq_map]; exact h2.2
+
 /-! ## stability: "a value has the same hash however it was built" -/
 
 /-- `≈`-equal values have the same hash, for every `H` whatsoever.  Clause: dict / set / frozenset / dataclass
